@@ -5,6 +5,7 @@ import (
 	"context"
 	"fmt"
 	"math/rand"
+	"os"
 	"strings"
 	"sync"
 	"sync/atomic"
@@ -125,6 +126,12 @@ func runC14Sequence(ctx context.Context, run *common.Run, st *c14Stats, idx int,
 	var desc []string
 	protoconfSent := false
 	nmsg := 1 + rng.Intn(40)
+	if v := os.Getenv("VERIF_C14_MAXMSG"); v != "" { // debugging aid: truncate the sequence
+		var k int
+		if fmt.Sscan(v, &k); k < nmsg {
+			nmsg = k
+		}
+	}
 	var pendingBlock *bitcoin.Hash32
 	send := func(kind string, frame []byte) bool {
 		desc = append(desc, fmt.Sprintf("%s[%d]", kind, len(frame)))
@@ -171,8 +178,11 @@ func runC14Sequence(ctx context.Context, run *common.Run, st *c14Stats, idx int,
 			for j := range cb {
 				cb[j] = byte('a' + rng.Intn(26))
 			}
-			if string(cb) == "version" || string(cb) == "verack" {
-				cb[0] = 'x'
+			// never a real command by accident ("tx" with a random payload is not conformant traffic):
+			// no command of the protocol starts with "zq" or is "z"
+			cb[0] = 'z'
+			if l > 1 {
+				cb[1] = 'q'
 			}
 			ok = send("made-up", Frame(string(cb), payloadOf(maxPayload)))
 		case k < 6: // extended unknown
@@ -273,7 +283,7 @@ func runC14Sequence(ctx context.Context, run *common.Run, st *c14Stats, idx int,
 	run.Eval(1)
 	nonce := rng.Uint64()
 	got, closed := s.PingPong(nonce, 30*time.Second)
-	w := map[string]interface{}{"kind": "p2p-sequence", "with_tx_manager": withTx, "messages": desc}
+	w := map[string]interface{}{"kind": "p2p-sequence", "with_tx_manager": withTx, "messages": desc, "case": idx, "seed": run.Seed}
 	if idx < 3 {
 		run.Sample(w)
 	}
@@ -343,7 +353,15 @@ func RunC14(tier string, seed int64) int {
 		n, maxPayload, par = 20000, 4<<20, 48
 	}
 	st := &c14Stats{}
-	common.ParallelFor(n, par, func(i int) { runC14Sequence(ctx, run, st, i, maxPayload) })
+	only := -1
+	if v := os.Getenv("VERIF_C14_CASE"); v != "" { // debugging aid: one sequence only
+		fmt.Sscan(v, &only)
+	}
+	common.ParallelFor(n, par, func(i int) {
+		if only < 0 || i == only {
+			runC14Sequence(ctx, run, st, i, maxPayload)
+		}
+	})
 	kinds := map[string]int64{}
 	st.byKind.Range(func(k, v interface{}) bool { kinds[k.(string)] = atomic.LoadInt64(v.(*int64)); return true })
 	run.Extra("observed", map[string]interface{}{"verified_sessions": st.sessions, "messages_sent": st.msgs,
